@@ -31,6 +31,8 @@ var checks = map[string]*check{
 			{Name: "routing-1id", Kind: "explore", Scen: "mux_route", Inst: inst("single", "single"), Depths: depths([]int{3}, []int{3, 4, 5}), Budget: budget(2*time.Minute, 10*time.Minute)},
 			{Name: "routing-2id", Kind: "explore", Scen: "mux_route", Inst: inst("pairs", "pairs-all"), Depths: depths([]int{2}, []int{2, 3}), Budget: budget(3*time.Minute, 20*time.Minute)},
 			{Name: "concurrent-dispense", Kind: "explore", Scen: "conc_ops", Inst: inst("c06", "c06"), Depths: depths([]int{2}, []int{2, 3}), Budget: budget(2*time.Minute, 10*time.Minute)},
+			// two ids at once with fine-grained preemption (every function entry of go-plugin is a scheduling point)
+			{Name: "fine-grained", Kind: "explore", Scen: "mux_route", Inst: inst("fine", "fine"), Depths: depths([]int{2}, []int{2, 3}), Budget: budget(3*time.Minute, 20*time.Minute)},
 			// explicit ids: the same number outstanding in both directions at once, ids 0 / 2^31 / 2^32-1
 			{Name: "id-values", Kind: "explore", Scen: "mux_route", Inst: inst("ids", "ids"), Depths: depths([]int{2}, []int{2, 3}), Budget: budget(2*time.Minute, 10*time.Minute)},
 			// a dialled connection used again 6 s later with 400 KiB in each direction (beyond yamux's window)
@@ -164,6 +166,8 @@ var checks = map[string]*check{
 		},
 		Parts: []part{
 			{Name: "sequences", Kind: "explore", Scen: "once_seq", BatchN: 100, Depths: depths([]int{0}, []int{0}), Budget: budget(3*time.Minute, 30*time.Minute)},
+			// concurrent calls with fine-grained preemption (every function entry of go-plugin is a scheduling point)
+			{Name: "concurrent-fine-grained", Kind: "explore", Scen: "once_conc", Inst: inst("fine", "fine"), Depths: depths([]int{2}, []int{2, 3}), Budget: budget(3*time.Minute, 20*time.Minute)},
 			{Name: "concurrent", Kind: "explore", Scen: "once_conc", Depths: depths([]int{2}, []int{2, 3}), Budget: budget(3*time.Minute, 20*time.Minute)},
 			{Name: "conformance", Kind: "conform", Scen: "once_seq"},
 		},
@@ -304,6 +308,9 @@ var checks = map[string]*check{
 		},
 		Parts: []part{
 			{Name: "schedules", Kind: "explore", Scen: "conc_ops", Depths: depths([]int{2}, []int{2, 3}), Budget: budget(4*time.Minute, 25*time.Minute)},
+			// the same mixes with fine-grained preemption (every function entry of go-plugin is a scheduling point): exposes
+			// unsynchronised read-modify-write sequences exhaustively within the bound, next to the sampled race pass
+			{Name: "fine-grained", Kind: "explore", Scen: "conc_ops", Inst: inst("fine", "fine"), Depths: depths([]int{2}, []int{2, 3}), Budget: budget(4*time.Minute, 30*time.Minute)},
 			{Name: "race-pass", Kind: "enum", Bin: "e3.test", Test: "TestRacePass"},
 			{Name: "conformance", Kind: "conform", Scen: "conc_ops"},
 		},
